@@ -521,3 +521,33 @@ func (w *vWorld) takeCompletion(d *dispatch.Dispatcher, wait time.Duration) (dis
 	}
 	return e.(dispatcherCompleteEvent), true
 }
+
+// waitFor blocks until an event accepted by match is queued (without removing it).
+func (l *vLoop) waitFor(match func(event) bool, wait time.Duration) bool {
+	deadline := time.Now().Add(wait)
+	for {
+		l.mu.Lock()
+		for _, e := range l.q {
+			if match(e) {
+				l.mu.Unlock()
+				return true
+			}
+		}
+		l.mu.Unlock()
+		if time.Now().After(deadline) {
+			return false
+		}
+		time.Sleep(50 * time.Microsecond)
+	}
+}
+
+// submit does what the scheduler's API methods and goroutines do with an event: hand it to the
+// event loop, which applies it when it is still running (baseEventLoop.send returns false once the
+// loop has been stopped, and the event is then never applied).
+func (w *vWorld) submit(e event) bool {
+	if w.loop.isStopped() {
+		return false
+	}
+	e.apply(w.st)
+	return true
+}
